@@ -1090,6 +1090,12 @@ static void collect_fn_sigs(ASTNode *stmt, FunctionTypeRegistry *reg) {
                 collect_fn_sigs(stmt->as.match_expr.arm_bodies[i], reg);
             }
             break;
+        case AST_UNSAFE_BLOCK:
+            /* unsafe { ... } holds ordinary statements */
+            for (int i = 0; i < stmt->as.unsafe_block.count; i++) {
+                collect_fn_sigs(stmt->as.unsafe_block.statements[i], reg);
+            }
+            break;
         default:
             break;
     }
